@@ -15,7 +15,7 @@
    termination of its callbacks, and it does not read options['statementCount']; both proved for the modelled library. *)
 From Coq Require Import List.
 From BS Require Import Model.Base Model.Num Model.Arith Model.ExprParser Model.Script Model.Interp Model.LibCore Model.RunC01
-                       Model.ScriptX Model.Lower Proofs.Fuel Proofs.C01 Proofs.C01b Proofs.C01c Proofs.C01d Proofs.Blind Proofs.C07.
+                       Model.ScriptX Model.Lower Proofs.Fuel Proofs.C01 Proofs.C01b Proofs.C01c Proofs.C01d Proofs.Blind Proofs.C07 Proofs.C09 Proofs.C01lim.
 
 Lemma real_lab_inj : forall k n k' n', real_lab k n = real_lab k' n' -> k = k' /\ n = n'.
 Proof.
@@ -72,6 +72,24 @@ Proof.
   exact (scope_sim cfg Hunl lib url_rel lint_lines Hf um real_lab real_lab_inj (Ev_blind_holds cfg Hunl lib url_rel lint_lines Hb um)).
 Qed.
 Print Assumptions C01_simulation_library_premises_partial.
+
+(* ... and under a POSITIVE statement limit: the structured reading is taken with the limit lifted; the interpreter run under the
+   limit on the lowered code either ends with the same result, locals and world (up to the counter), or it is cut short by
+   exactly the statement-budget error, and then the full run starts more than the limit's worth of statements.  (Composition
+   with the lock step of Props/C09.v; four premises on the library, all proved for the modelled library.) *)
+Theorem C01_simulation_under_a_limit_partial : forall cfg, (0 < c_max cfg)%Z ->
+  forall lib url_rel lint_lines, lib_fuel_monotone lib -> lib_count_blind lib -> lib_monotone lib -> lib_lockstep lib cfg ->
+  forall um s loc w o loc' w', SExec (unlimited cfg) lib url_rel lint_lines um s (loc, w) o (loc', w') ->
+  wf false s = true -> guard s = true ->
+  forall n wm, weq w wm ->
+  exists out wm' fuel, scope_result o = Some out /\ weq w' wm' /\ out <> OFuel /\
+    let r := exec cfg lib url_rel lint_lines fuel (fst (compile real_lab None n s)) 0 [] loc um wm in
+    r = (out, loc', wm') \/ (fst (fst r) = ORt (msg_exceeded (c_max cfg)) /\ (c_max cfg < w_count wm')%Z).
+Proof.
+  intros cfg Hpos lib url_rel lint_lines Hf Hb Hm Hl um.
+  exact (scope_sim_limited cfg Hpos lib url_rel lint_lines Hf Hb Hm Hl um real_lab real_lab_inj).
+Qed.
+Print Assumptions C01_simulation_under_a_limit_partial.
 
 (* both library premises hold for the modelled library functions (non-vacuity) *)
 Theorem C01_premises_hold_for_modelled_library : forall cfg, lib_fuel_monotone (libcore cfg) /\ lib_count_blind (libcore cfg).
